@@ -258,10 +258,12 @@ func main() {
 	}
 	var w strings.Builder
 	w.WriteString("(* GENERATED by go/cmd/translate from the repository source - do not edit. *)\n")
-	w.WriteString("From Coq Require Import List ZArith Strings.Byte.\nFrom IGP Require Import Base.Str Model.Tree Model.DoV Model.Leaves Model.Flat Model.Visual Model.Link Model.Tabular.\nImport ListNotations.\nLocal Open Scope Z_scope.\n\n")
+	w.WriteString("From Coq Require Import List ZArith Strings.Byte.\nFrom IGP Require Import Base.Str Model.Tree Model.DoV Model.Leaves Model.Flat Model.Visual Model.Link Model.Tabular Model.Nested Model.Pairs.\nImport ListNotations.\nLocal Open Scope Z_scope.\n\n")
 	genComplexity(&w)
 	genVisual(&w)
 	genTabular(&w)
+	genNested(&w)
+	genCopy(&w)
 	sort.Strings(unsupported)
 	var us []string
 	for _, u := range unsupported {
@@ -285,8 +287,9 @@ func main() {
 	unsupported = nil
 	var h strings.Builder
 	h.WriteString("(* GENERATED by go/cmd/translate (handler programs, from the syntax tree) and gossa (read/write sets, from the SSA form) - do not edit. *)\n")
-	h.WriteString("From Coq Require Import List Strings.Byte.\nFrom IGP Require Import Base.Str Model.Handlers.\nImport ListNotations.\n\n")
+	h.WriteString("From Coq Require Import List Strings.Byte.\nFrom IGP Require Import Base.Str Model.Handlers Model.WebDecode.\nImport ListNotations.\n\n")
 	genHandlers(&h, ssaSetsByRoot)
+	genWebDecode(&h)
 	if ssaNote != "" {
 		unsup("%s", ssaNote)
 	}
